@@ -222,4 +222,29 @@ def C20(tier, seed):
     }
 
 
-REGISTRY = {"C20": C20, "C09": C09, "C19": C19, "C18": C18, "C13": C13, "C07": C07, "C14": C14, "C15": C15}
+def C11(tier, seed):
+    def st(part, req):
+        return Stage(part, ("Gen_Totality", "Gen_Totality.cfg"), ("Trace_Totality", "Trace_Totality.cfg"),
+                     env={"PART": part}, required=req, shards=4)
+    mean_req = ["C11.no_panic", "C11.ok_allowed", "C11.err_variant", "C11.ok_sane", "C11.ok_kind",
+                "C11.class.empty", "C11.class.singleton", "C11.class.constant", "C11.class.extreme", "C11.class.nonfinite",
+                "C11.class.TooFewSamples", "C11.class.InvalidInputData", "C11.class.NonPositiveValue",
+                "C11.class.DifferentSampleSizes", "C11.harmonic_contains_estimate"] + \
+               ["C11.mean." + f for f in ("arith", "geo", "harm", "paired", "unpaired")]
+    return {
+        "stages": [st("mean", mean_req),
+                   st("prop", ["C11.no_panic", "C11.is_significant", "C11.is_significant_k_gt_n", "C11.documented_panic", "C11.stats_new", "C11.prop"]),
+                   st("quant", ["C11.no_panic", "C11.quant_ranks", "C11.quant_data", "C11.documented_panic_quantile"])],
+        "exhaustive": True,
+        "rule": "decision table of module Totality: five mean/comparison producers x call styles x samples of length 0..4 (6 thorough) with one "
+                "offending observation (NaN, +-inf, -0, 0, negative, 1e200, 1e-200) at every position, constant and non exactly summable "
+                "constant samples, mismatched / short partner samples x 3 kinds x levels {0.001, (0.5), 0.95, 0.9999} x f32/f64; every (n, k) "
+                "with k <= n+1 up to 24 (45) through the proportion producers, is_significant, Stats::new; every (n, q) with n <= 16 (40), "
+                "q in {-1/8..9/8, NaN, +-inf} through the rank and data level quantile entry points incl. the documented panics; in a build "
+                "with overflow checks. A case is distinct by (entry point, style, type, input, confidence).",
+        "assumptions": TLC_TRUST + ["representatives of the value classes are fixed (e.g. 3e200 for 'huge')",
+                                   "harmonic means: an error is admitted whenever the call is otherwise valid (the reciprocal-space interval may reach 0); C05 decides when it must be Ok"],
+    }
+
+
+REGISTRY = {"C11": C11, "C20": C20, "C09": C09, "C19": C19, "C18": C18, "C13": C13, "C07": C07, "C14": C14, "C15": C15}
